@@ -44,7 +44,7 @@ type Verdict struct {
 	SkipReason string
 }
 
-func (v *Verdict) Class(c string)      { v.Classes = append(v.Classes, c) }
+func (v *Verdict) Class(c string) { v.Classes = append(v.Classes, c) }
 func (v *Verdict) Failf(f string, a ...interface{}) {
 	if v.Err == "" {
 		v.Err = fmt.Sprintf(f, a...)
@@ -53,11 +53,11 @@ func (v *Verdict) Failf(f string, a ...interface{}) {
 
 // Opts configure a run.
 type Opts struct {
-	Property string // C01
-	Name     string // sub-check name, e.g. "sound"
-	Quick    int    // number of cases in the quick tier (whole run)
-	Thorough int    // number of cases in the thorough tier (summed over shards)
-	Rule     string // non-triviality rule (text, for evidence)
+	Property   string // C01
+	Name       string // sub-check name, e.g. "sound"
+	Quick      int    // number of cases in the quick tier (whole run)
+	Thorough   int    // number of cases in the thorough tier (summed over shards)
+	Rule       string // non-triviality rule (text, for evidence)
 	MaxSamples int
 	// Journal: write every case to $VERIF_WORK/journal-<property>-<name>.json
 	// before it runs, so that a crash of the whole process (a fatal
@@ -69,41 +69,41 @@ type Opts struct {
 }
 
 type stats struct {
-	Property      string            `json:"property"`
-	Name          string            `json:"name"`
-	Tier          string            `json:"tier"`
-	Shard         int               `json:"shard"`
-	Seed          uint64            `json:"rapid_seed"`
-	Requested     int               `json:"requested"`
-	Evaluations   int               `json:"evaluations"`
-	NonTrivial    int               `json:"nontrivial"`
-	Distinct      int               `json:"distinct_nontrivial"`
-	Skipped       map[string]int    `json:"skipped,omitempty"`
-	Classes       map[string]int    `json:"classes"`
-	Samples       []json.RawMessage `json:"samples"`
-	Rule          string            `json:"rule"`
-	Exhaustive    bool              `json:"exhaustive,omitempty"`
-	Violations    int               `json:"violations"`
-	Known         []string          `json:"known,omitempty"`
-	HashFile      string            `json:"hash_file,omitempty"`
-	Replay        bool              `json:"replay,omitempty"`
-	WallS         float64           `json:"wall_s"`
-	Notes         map[string]interface{} `json:"notes,omitempty"`
+	Property    string                 `json:"property"`
+	Name        string                 `json:"name"`
+	Tier        string                 `json:"tier"`
+	Shard       int                    `json:"shard"`
+	Seed        uint64                 `json:"rapid_seed"`
+	Requested   int                    `json:"requested"`
+	Evaluations int                    `json:"evaluations"`
+	NonTrivial  int                    `json:"nontrivial"`
+	Distinct    int                    `json:"distinct_nontrivial"`
+	Skipped     map[string]int         `json:"skipped,omitempty"`
+	Classes     map[string]int         `json:"classes"`
+	Samples     []json.RawMessage      `json:"samples"`
+	Rule        string                 `json:"rule"`
+	Exhaustive  bool                   `json:"exhaustive,omitempty"`
+	Violations  int                    `json:"violations"`
+	Known       []string               `json:"known,omitempty"`
+	HashFile    string                 `json:"hash_file,omitempty"`
+	Replay      bool                   `json:"replay,omitempty"`
+	WallS       float64                `json:"wall_s"`
+	Notes       map[string]interface{} `json:"notes,omitempty"`
 }
 
 // Rec records what one sub-check explored.
 type Rec struct {
-	mu      sync.Mutex
-	o       Opts
-	st      stats
-	hashes  map[uint64]struct{}
-	failed  bool
-	current []byte
-	curMsg  string
+	mu        sync.Mutex
+	o         Opts
+	st        stats
+	hashes    map[uint64]struct{}
+	failed    bool
+	current   []byte
+	curMsg    string
 	firstMsg  string // the first failure seen (kept in case it does not reproduce)
 	firstCase []byte
-	start   time.Time
-	frozen  bool
+	start     time.Time
+	frozen    bool
 }
 
 const maxHashes = 400000
@@ -124,9 +124,15 @@ func envInt(k string, d int) int {
 	return d
 }
 
-func Shard() int   { return envInt("VERIF_SHARD", 0) }
-func NShards() int { n := envInt("VERIF_NSHARDS", 1); if n < 1 { n = 1 }; return n }
-func Seed() int    { return envInt("VERIF_SEED", 1) }
+func Shard() int { return envInt("VERIF_SHARD", 0) }
+func NShards() int {
+	n := envInt("VERIF_NSHARDS", 1)
+	if n < 1 {
+		n = 1
+	}
+	return n
+}
+func Seed() int { return envInt("VERIF_SEED", 1) }
 
 // RapidSeed derives the PRNG value for this (seed, shard, name).  Never 0.
 func RapidSeed(name string) uint64 {
